@@ -157,6 +157,44 @@ def forward_bound_accumulator(ctx: Ctx, rid: str):
                    key=key_of(rid, sched, None, "fwd gap unconditional"))
 
 
+def edge_set_rule(ctx: Ctx, rid: str, only=None):
+    """Every function that decides readiness, bounds or terminal status enumerates a task's own dependencies AND those of every
+    enclosing container (getAllDependencies), not the own 'depends' attribute alone  (C04 R04.1; C06 R06.9 for the terminal test)."""
+    repo = ctx.repo
+    gad = repo.func("TaskScenario.getAllDependencies")
+    consumers = []
+    for fn in sorted(repo.all_funcs(), key=lambda f: f.key):
+        if fn is gad:
+            continue
+        direct = [n for n in own_nodes(fn) if isinstance(n, ast.Call) and isinstance(n.func, ast.Attribute)
+                  and n.func.attr == "get" and n.args and const_str(n.args[0]) == "depends"]
+        via = calls_named(fn, "getAllDependencies")
+        if direct or via:
+            consumers.append((fn, direct, via))
+    deciding = {"TaskScenario._asapReadyForScheduling", "TaskScenario._alapReadyForScheduling", "TaskScenario.schedule",
+                "TaskScenario._getSuccessors", "TaskScenario._gapToSuccessor", "Project._propagateContainerEndDates"}
+    seen = set()
+    for fn, direct, via in consumers:
+        if fn.module.rel.startswith("scriptplan/parser/"):
+            continue          # construction of the lists, not consumption
+        if only is not None and fn.qual not in only:
+            continue
+        inst = f"{fn.qual}: {'getAllDependencies' if via else ''}{' + ' if via and direct else ''}{'own-only read' if direct else ''}"
+        if fn.qual in deciding:
+            ok = bool(via)
+            seen.add(fn.qual)
+            ctx.ob(rid, inst, fn, ok,
+                   "enumerates own + inherited edges" if ok else
+                   "readiness / bound / terminal-task code reads only the task's own 'depends' attribute: edges declared on an enclosing "
+                   "container are missed when the child has dependencies of its own",
+                   key=f"{rid}|{fn.qual}|edge set")
+        else:
+            ctx.ob(rid, inst, fn, None, "own-only consumer outside the readiness/bound pair (mode propagation, horizon estimate)",
+                   info=True)
+    if only is not None and not (set(only) & seen):
+        raise AnchorMissing(f"edge-set rule: none of {sorted(only)} reads dependencies any more")
+
+
 def run_extra(ctx: Ctx):
     # ---------------------------------------------------------------- R04.12 answers never come from state that outlives the question
     from .common import process_state_rule
@@ -194,32 +232,7 @@ def run(ctx: Ctx):
            "returns the task's own dependencies and those of every enclosing container" if ok else
            "getAllDependencies no longer collects the own list and the list of every ancestor",
            key="R04.1|TaskScenario.getAllDependencies|own+ancestors")
-    # consumers
-    consumers = []
-    for fn in sorted(repo.all_funcs(), key=lambda f: f.key):
-        if fn is gad:
-            continue
-        direct = [n for n in own_nodes(fn) if isinstance(n, ast.Call) and isinstance(n.func, ast.Attribute)
-                  and n.func.attr == "get" and n.args and const_str(n.args[0]) == "depends"]
-        via = calls_named(fn, "getAllDependencies")
-        if direct or via:
-            consumers.append((fn, direct, via))
-    deciding = {"TaskScenario._asapReadyForScheduling", "TaskScenario._alapReadyForScheduling", "TaskScenario.schedule",
-                "TaskScenario._getSuccessors", "TaskScenario._gapToSuccessor", "Project._propagateContainerEndDates"}
-    for fn, direct, via in consumers:
-        if fn.module.rel.startswith("scriptplan/parser/"):
-            continue          # construction of the lists, not consumption
-        inst = f"{fn.qual}: {'getAllDependencies' if via else ''}{' + ' if via and direct else ''}{'own-only read' if direct else ''}"
-        if fn.qual in deciding:
-            ok = bool(via)
-            ctx.ob("R04.1", inst, fn, ok,
-                   "enumerates own + inherited edges" if ok else
-                   "readiness / bound code reads only the task's own 'depends' attribute: edges declared on an enclosing "
-                   "container are missed when the child has dependencies of its own",
-                   key=f"R04.1|{fn.qual}|edge set")
-        else:
-            ctx.ob("R04.1", inst, fn, None, "own-only consumer outside the readiness/bound pair (mode propagation, horizon estimate)",
-                   info=True)
+    edge_set_rule(ctx, "R04.1")
 
     # ---------------------------------------------------------------- R04.2 forward
     def in_forward(n):
